@@ -33,16 +33,28 @@ def expectedMem : Exec → MemFn
   | .opRevert => .memoryRevert
   | _ => .none
 
+/-- how deep the `memorySize` function looks into the stack (largest `Back(n)` + 1) -/
+def memArity : MemFn → Nat
+  | .none | .other _ => 0
+  | .memoryMLoad | .memoryMStore8 | .memoryMStore => 1
+  | .memorySha3 | .memoryReturn | .memoryRevert | .memoryLog => 2
+  | .memoryCallDataCopy | .memoryReturnDataCopy | .memoryCodeCopy | .memoryMcopy
+  | .memoryCreate | .memoryCreate2 => 3
+  | .memoryExtCodeCopy => 4
+  | .memoryDelegateCall | .memoryStaticCall => 6
+  | .memoryCall => 7
+  | .memoryAuthCall => 9
+
 def isOther : Exec → Bool
   | .other _ => true
   | _ => false
 
-/-- a slot is consistent: an untranscribed `execute` comes only with an untranscribed (or no)
-memory-size function; for a transcribed one enough stack is demanded for what `execute` pops, the memory-size
+/-- a slot is consistent: with an untranscribed `execute` the stack demand still covers what the
+memory-size function reads; for a transcribed one enough stack is demanded for what `execute` pops, the memory-size
 function is the one `execute` needs, a memory-size function never comes without a gas
 function (which is what bounds the resize), `dup`/`swap` parameters are positive. -/
 def slotOK (i : OpInfo) : Bool :=
-  (isOther i.exec && (match i.memSize with | .none => true | .other _ => true | _ => false)) ||
+  (isOther i.exec && decide (memArity i.memSize ≤ i.minStack)) ||
     (decide (arity i.exec ≤ i.minStack) && (i.memSize == expectedMem i.exec) &&
      ((i.memSize == .none) || !(i.dynGas == .none)) &&
      (match i.exec with | .dup n => decide (0 < n) | .swap n => decide (0 < n) | _ => true))
